@@ -1,7 +1,7 @@
 """Shared machinery of ./check: builds the harness from /repo's working tree, runs TLC (model
 checking of the implementation-shaped specifications and trace validation of recorded
 executions), matches breaches against known_findings.json, writes evidence."""
-import collections, json, os, re, subprocess, sys, time
+import collections, json, os, re, shutil, subprocess, sys, time
 
 ROOT = os.path.dirname(os.path.dirname(os.path.abspath(__file__)))
 HARNESS = os.path.join(ROOT, "harness")
@@ -60,6 +60,7 @@ def run_tlc(workdir, module_dir, module, cfg_text, env=None, workers=1, timeout=
     except subprocess.TimeoutExpired:
         raise ToolError("TLC did not stop on " + module)
     text = open(out, errors="replace").read()
+    shutil.rmtree(os.path.join(workdir, "meta"), ignore_errors=True)      # TLC's state files (gigabytes after a run stopped by its budget)
     res = {"rc": rc, "wall_s": round(dt, 1), "out": out, "text": text}
     m = re.search(r"(\d+) states generated, (\d+) distinct states found, (\d+) states left on queue", text)
     if m:
@@ -1296,20 +1297,30 @@ def main(argv):
     try:
         if "--replay" in argv:
             return replay(pid, argv[argv.index("--replay") + 1])
+        rc = None
         if pid in ENGINE_PROPS:
-            return check_engine_property(pid, tier, seed)
-        if pid == "C12":
-            return check_lifecycle(pid, tier, seed)
-        if pid == "C19":
-            return check_backoff(pid, tier, seed)
-        if pid == "C03":
-            return check_codec(pid, tier, seed)
-        if pid == "C20":
-            return check_aws(pid, tier, seed)
-        if pid == "C13":
-            return check_pump(pid, tier, seed)
-        print("no check registered for", pid)
-        return 2
+            rc = check_engine_property(pid, tier, seed)
+        elif pid == "C12":
+            rc = check_lifecycle(pid, tier, seed)
+        elif pid == "C19":
+            rc = check_backoff(pid, tier, seed)
+        elif pid == "C03":
+            rc = check_codec(pid, tier, seed)
+        elif pid == "C20":
+            rc = check_aws(pid, tier, seed)
+        elif pid == "C13":
+            rc = check_pump(pid, tier, seed)
+        if rc is None:
+            print("no check registered for", pid)
+            return 2
+        if rc == 0 and not os.environ.get("VERIF_KEEP_TRACES"):
+            # disk is limited: the recorded traces of a run in which everything held are not kept (replay files carry their own script)
+            for root, _, files in os.walk(os.path.join(WORK, pid)):
+                for fn in files:
+                    if fn.endswith(".ndjson"):
+                        try: os.remove(os.path.join(root, fn))
+                        except OSError: pass
+        return rc
     except ToolError as e:
         print("TOOL-ERROR:", e)
         return 2
